@@ -586,6 +586,13 @@ char *recip;
  /* rewrite() never prepends for a domain listed in locals */
  if (constmap(&maplocals,domain,domainlen)) return recip;
 
+ /* virtual users: rewrite() turned user@domain into prepend-user@domain */
+ for (i = 0;recip[i];++i)
+   if (recip[i] == '-')
+     if ((prepend = constmap(&mapvdoms,recip + i + 1,str_len(recip + i + 1))))
+       if (*prepend && (str_len(prepend) == i) && !str_diffn(recip,prepend,i))
+         return recip + i + 1;
+
  for (i = 0;i <= domainlen;++i)
    if ((i == 0) || (i == domainlen) || (domain[i] == '.'))
      if ((prepend = constmap(&mapvdoms,domain + i,domainlen - i)))
